@@ -46,7 +46,8 @@ Holds(name, em, rv) ==
     [] name = "DeliveredBeforeOutcome" -> DeliveredBeforeOutcome(em, rv)
     [] name = "ContentPreserved" -> ContentPreserved(em, rv)
 
-(* o = [em, rv, expect_em, expect_rv]; a history that differs from the model's without falsifying a clause is "Drift" *)
+(* o = [em, rv, expects]: expects = the histories [em, rv] LogOrder.tla gives this script under each design (intended, as
+   found, partially repaired).  A real history that matches none of them without falsifying a clause is "Drift".      *)
 Conforms(c, o) == {n \in ClauseNames : ~Holds(n, o.em, o.rv)}
-                  \cup (IF o.em = o.expect_em /\ o.rv = o.expect_rv THEN {} ELSE {"Drift"})
+                  \cup (IF \E i \in 1..Len(o.expects) : o.expects[i].em = o.em /\ o.expects[i].rv = o.rv THEN {} ELSE {"Drift"})
 ==========================================================================================
